@@ -13,7 +13,18 @@
 //! form "none": the operations are applied to a `SpanGuard` whose changing type
 //! parameters are erased (`Box<dyn ErasedProps>`, boxed `dyn ErasedCompletion`).
 //! Other forms: the sequence is what a macro expansion performs; it is executed by calling
-//! a function carrying the attribute (sync and async variant).
+//! a function carrying the attribute (sync and async variant): plain, setup (`setup:`),
+//! result (ok_lvl / err_lvl), resultM (+ `err:` mapper), guard (`guard:`), newspan
+//! (`emit::new_span!` and manual handling of the guard, in `Frame::call` and `in_future`).
+//! The attribute on blocks / async blocks needs the unstable features stmt_expr_attributes
+//! and proc_macro_hygiene (E0658 on this toolchain) and is not exercised; the expansion
+//! code (inject_sync / inject_async) is the one used for functions.
+//!
+//! Mode "typed" (third argument): the cases are *all* sequences of <= 3 non-terminal
+//! operations followed by a terminal one; each is executed on the erased guard, on
+//! statically typed guards (level0..level3, stamped by `level!`: every operation yields the
+//! concrete type the API gives, nothing boxed) and, for default completions, on the guard
+//! `new_span!` returns - all compared with the same prediction.
 //!
 //! Clock readings are compared relationally: the extent must run from a reading the
 //! scripted clock handed out during the (first) Start operation to one handed out during
@@ -40,6 +51,15 @@ static CUR_OP: AtomicUsize = AtomicUsize::new(0);
 static RNG: AtomicU64 = AtomicU64::new(1);
 static CALLS: Mutex<Vec<Value>> = Mutex::new(Vec::new());
 static IDS: Mutex<Option<String>> = Mutex::new(None);
+/// order of the marks "setup", "new" (filter consulted), "complete" (event at the emitter),
+/// "setup_drop"; consecutive repetitions are merged
+static TRAIL: Mutex<Vec<&'static str>> = Mutex::new(Vec::new());
+fn mark(m: &'static str) {
+    let mut t = lock(&TRAIL);
+    if t.last() != Some(&m) {
+        t.push(m);
+    }
+}
 
 struct ClockState {
     script: Vec<u64>,
@@ -60,6 +80,7 @@ struct CRng;
 impl Emitter for RecEmitter {
     fn emit<E: ToEvent>(&self, evt: E) {
         let evt = evt.to_event();
+        mark("complete");
         let p = evt.props();
         let v = json!({
             "cid": "emitter", "op": CUR_OP.load(SeqCst),
@@ -83,6 +104,7 @@ impl Emitter for RecEmitter {
 
 impl Filter for VFilter {
     fn matches<E: ToEvent>(&self, _: E) -> bool {
+        mark("new");
         VERDICT.load(SeqCst)
     }
 }
@@ -130,6 +152,7 @@ fn reset_env(verdict: bool, script: &[u64]) {
     CUR_OP.store(0, SeqCst);
     lock(&CALLS).clear();
     *lock(&IDS) = None;
+    lock(&TRAIL).clear();
     let mut c = lock(&CLOCK);
     c.script = script.to_vec();
     c.pos = 0;
@@ -162,6 +185,26 @@ fn rec(id: String) -> DynC {
         });
         lock(&CALLS).push(v);
     })))
+}
+
+/// The recording completion as its concrete type (typed chains).
+fn rec_typed(id: &'static str) -> completion::FromFn<impl Fn(Span<&dyn ErasedProps>)> {
+    completion::from_fn(move |span: Span<&dyn ErasedProps>| {
+        let p = span.props();
+        let v = json!({
+            "cid": id, "op": CUR_OP.load(SeqCst),
+            "mdl": span.mdl().to_string(),
+            "name": span.name().to_string(),
+            "a": p.get("a").and_then(|v| v.to_string().parse::<i64>().ok()),
+            "m": p.get("m").is_some(),
+            "extent": extent_json(span.extent()),
+        });
+        lock(&CALLS).push(v);
+    })
+}
+
+fn leaked_err() -> &'static std::io::Error {
+    Box::leak(Box::new(std::io::Error::other("failed")))
 }
 
 fn mk(kind: &str) -> DynC {
@@ -232,38 +275,228 @@ fn run_ops<T: Clock, P: Props, F: Completion>(
             "WithProps" => guard = Some((retype.unwrap().with_props)(g, a.parse().unwrap())),
             "MapProps" => guard = Some((retype.unwrap().map_props)(g)),
             "WithCompletion" => guard = Some((retype.unwrap().with_completion)(g, a)),
-            "Complete" => ret = Some(g.complete()),
-            "CompleteWith" => ret = Some(g.complete_with(mk(a))),
-            "Drop" => drop(g),
-            "DropWhilePanicking" => {
-                let r = std::panic::catch_unwind(std::panic::AssertUnwindSafe(move || {
-                    let _g = g;
-                    std::panic::panic_any(Boom);
-                }));
-                if let Err(e) = r {
-                    if !e.is::<Boom>() {
-                        std::panic::resume_unwind(e);
-                    }
-                }
-            }
+            "Complete" | "CompleteWith" | "Drop" | "DropWhilePanicking" => ret = terminal(g, op, false),
             _ => tool_error(&format!("unknown op {name}")),
         }
         obs.en.push(guard.as_ref().map(|g| g.is_enabled()));
         obs.ret.push(ret);
         obs.n.push(lock(&CALLS).len());
     }
-    // a sequence that does not end in a terminal operation: what happens to the guard
-    // afterwards is not part of this case
-    CUR_OP.store(usize::MAX, SeqCst);
     if let Some(g) = guard {
-        let snapshot = lock(&CALLS).len();
-        drop(g);
-        lock(&CALLS).truncate(snapshot);
+        leftover(g);
     }
 }
 
 /// The harness's own panic payload (DropWhilePanicking and the panicking fixtures).
 struct Boom;
+
+struct OnDrop<F: FnOnce()>(Option<F>);
+impl<F: FnOnce()> Drop for OnDrop<F> {
+    fn drop(&mut self) {
+        if let Some(f) = self.0.take() {
+            f()
+        }
+    }
+}
+
+/// Run `f` from the Drop of another value while the thread is unwinding.
+fn while_panicking<R>(f: impl FnOnce() -> R) -> R {
+    let mut out: Option<Result<R, String>> = None;
+    {
+        let out = &mut out;
+        let r = std::panic::catch_unwind(std::panic::AssertUnwindSafe(move || {
+            let _d = OnDrop(Some(move || {
+                if !std::thread::panicking() {
+                    tool_error("while_panicking: the thread is not panicking");
+                }
+                // a panic of the code under test must not escape a destructor (abort)
+                *out = Some(catch(f));
+            }));
+            std::panic::panic_any(Boom);
+        }));
+        match r {
+            Err(e) if e.is::<Boom>() => {}
+            Err(e) => std::panic::resume_unwind(e),
+            Ok(()) => tool_error("while_panicking: no panic"),
+        }
+    }
+    match out {
+        Some(Ok(r)) => r,
+        Some(Err(p)) => panic!("panic while completing during unwinding: {p}"),
+        None => tool_error("while_panicking: closure not run"),
+    }
+}
+
+/// A terminal operation on a guard of any type.  `typed`: complete_with is given the
+/// completion as its concrete type instead of the boxed one.
+fn terminal<T: Clock, P: Props, F: Completion>(g: SpanGuard<'static, T, P, F>, op: &Value, typed: bool) -> Option<bool> {
+    let name = op["op"].as_str().unwrap();
+    let a = op["a"].as_str().unwrap();
+    let pan = op["x"] == "pan";
+    fn cw<T: Clock, P: Props, F: Completion>(g: SpanGuard<'static, T, P, F>, c: impl Completion, pan: bool) -> bool {
+        if pan {
+            while_panicking(move || g.complete_with(c))
+        } else {
+            g.complete_with(c)
+        }
+    }
+    match name {
+        "Complete" => Some(if pan { while_panicking(move || g.complete()) } else { g.complete() }),
+        "CompleteWith" if !typed => Some(cw(g, mk(a), pan)),
+        "CompleteWith" => Some(match a {
+            "rec3" => cw(g, rec_typed("rec3"), pan),
+            "dflt" => cw(g, completion::default(RT.emitter(), RT.ctxt()), pan),
+            "dfltL" => cw(g, completion::default(RT.emitter(), RT.ctxt()).with_lvl(Level::Info).with_panic_lvl(Level::Warn), pan),
+            "ok" => cw(g, emit::__private::__private_complete_span_ok(&RT, emit::Template::literal("t"), Some(&Level::Debug)), pan),
+            "err" => cw(g, emit::__private::__private_complete_span_err(&RT, emit::Template::literal("t"), &Level::Warn, leaked_err()), pan),
+            _ => tool_error(&format!("unknown completion kind {a}")),
+        }),
+        "Drop" => {
+            drop(g);
+            None
+        }
+        "DropWhilePanicking" => {
+            let r = std::panic::catch_unwind(std::panic::AssertUnwindSafe(move || {
+                let _g = g;
+                std::panic::panic_any(Boom);
+            }));
+            if let Err(e) = r {
+                if !e.is::<Boom>() {
+                    std::panic::resume_unwind(e);
+                }
+            }
+            None
+        }
+        _ => tool_error(&format!("unknown terminal op {name}")),
+    }
+}
+
+fn note<T: Clock, P: Props, F: Completion>(obs: &mut Obs, g: &SpanGuard<'static, T, P, F>) {
+    obs.en.push(Some(g.is_enabled()));
+    obs.ret.push(None);
+    obs.n.push(lock(&CALLS).len());
+}
+
+fn leftover<T: Clock, P: Props, F: Completion>(g: SpanGuard<'static, T, P, F>) {
+    // a sequence that does not end in a terminal operation: what happens to the guard
+    // afterwards is not part of this case
+    CUR_OP.store(usize::MAX, SeqCst);
+    let snapshot = lock(&CALLS).len();
+    drop(g);
+    lock(&CALLS).truncate(snapshot);
+}
+
+// ------------------------------------------------------------------ statically typed chains
+/// One level of a typed chain: applies operation `i` with the concrete types the API gives
+/// and hands the resulting guard to the next level.
+macro_rules! level {
+    ($name:ident, $next:ident) => {
+        fn $name<T: Clock, P: Props, F: Completion>(g: SpanGuard<'static, T, P, F>, ops: &[Value], i: usize, obs: &mut Obs) {
+            if i >= ops.len() {
+                return leftover(g);
+            }
+            CUR_OP.store(i, SeqCst);
+            let op = &ops[i];
+            let a = op["a"].as_str().unwrap();
+            match op["op"].as_str().unwrap() {
+                "Start" => {
+                    let mut g = g;
+                    g.start();
+                    note(obs, &g);
+                    $next(g, ops, i + 1, obs)
+                }
+                "WithMdl" => {
+                    let g = g.with_mdl(Path::new_owned_raw(a.to_string()));
+                    note(obs, &g);
+                    $next(g, ops, i + 1, obs)
+                }
+                "WithName" => {
+                    let g = g.with_name(Str::new_owned(a.to_string()));
+                    note(obs, &g);
+                    $next(g, ops, i + 1, obs)
+                }
+                "WithProps" => {
+                    let g = g.with_props(("a", a.parse::<i64>().unwrap()));
+                    note(obs, &g);
+                    $next(g, ops, i + 1, obs)
+                }
+                "MapProps" => {
+                    let g = g.map_props(|p| p.and_props(("m", 1i64)));
+                    note(obs, &g);
+                    $next(g, ops, i + 1, obs)
+                }
+                "WithCompletion" => match a {
+                    "rec2" => {
+                        let g = g.with_completion(rec_typed("rec2"));
+                        note(obs, &g);
+                        $next(g, ops, i + 1, obs)
+                    }
+                    "dflt" => {
+                        let g = g.with_completion(completion::default(RT.emitter(), RT.ctxt()));
+                        note(obs, &g);
+                        $next(g, ops, i + 1, obs)
+                    }
+                    "dfltL" => {
+                        let g = g.with_completion(
+                            completion::default(RT.emitter(), RT.ctxt()).with_lvl(Level::Info).with_panic_lvl(Level::Warn),
+                        );
+                        note(obs, &g);
+                        $next(g, ops, i + 1, obs)
+                    }
+                    _ => tool_error(&format!("unknown completion kind {a}")),
+                },
+                _ => {
+                    let r = terminal(g, op, true);
+                    obs.en.push(None);
+                    obs.ret.push(r);
+                    obs.n.push(lock(&CALLS).len());
+                    if i + 1 != ops.len() {
+                        tool_error("operation after a terminal one");
+                    }
+                }
+            }
+        }
+    };
+}
+level!(level0, level1);
+level!(level1, level2);
+level!(level2, level3);
+level!(level3, level_end);
+fn level_end<T: Clock, P: Props, F: Completion>(g: SpanGuard<'static, T, P, F>, ops: &[Value], i: usize, _: &mut Obs) {
+    if i < ops.len() {
+        tool_error("typed chains are stamped for <= 3 operations before the terminal one");
+    }
+    leftover(g)
+}
+
+/// `via_macro`: the guard comes from `emit::new_span!` instead of `SpanGuard::new`.
+fn run_typed(case: &Value, via_macro: bool, obs: &mut Obs) {
+    let ops = case["ops"].as_array().unwrap();
+    let comp = ops[0]["a"].as_str().unwrap();
+    macro_rules! go {
+        ($pair:expr) => {{
+            let (guard, frame) = $pair;
+            note(obs, &guard);
+            frame.call(move || {
+                note_ids();
+                level0(guard, ops, 1, obs);
+            })
+        }};
+    }
+    macro_rules! new {
+        ($c:expr) => {
+            SpanGuard::new(RT.filter(), RT.ctxt(), RT.clock(), RT.rng(), $c, Empty, Path::new_raw("m0"), "n0", ("a", 0i64))
+        };
+    }
+    match (comp, via_macro) {
+        ("rec1", false) => go!(new!(rec_typed("rec1"))),
+        ("dflt", false) => go!(new!(completion::default(RT.emitter(), RT.ctxt()))),
+        ("dfltL", false) => go!(new!(completion::default(RT.emitter(), RT.ctxt()).with_lvl(Level::Info).with_panic_lvl(Level::Warn))),
+        ("dflt", true) => go!(emit::new_span!(rt: RT, mdl: emit::Path::new_raw("m0"), "n0", a: 0)),
+        ("dfltL", true) => go!(emit::new_info_span!(rt: RT, mdl: emit::Path::new_raw("m0"), panic_lvl: emit::Level::Warn, "n0", a: 0)),
+        _ => tool_error(&format!("typed chain: completion kind {comp}")),
+    }
+}
 
 fn run_erased(case: &Value, obs: &mut Obs) {
     let ops = case["ops"].as_array().unwrap();
